@@ -13,6 +13,7 @@ mod c08;
 mod c09;
 mod c11;
 mod c12;
+mod c13;
 mod curves;
 mod c14;
 mod c15;
@@ -54,6 +55,7 @@ fn main() {
             let thorough = args.iter().any(|a| a == "--thorough");
             c12::run(&mut rng, n, slice % 16, 16, thorough)
         }
+        "C13" => c13::run(&mut rng, n, args.iter().any(|a| a == "--child"), seed, args.iter().any(|a| a == "--thorough")),
         "C14" => c14::run(&mut rng, n, args.iter().any(|a| a == "--thorough")),
         "C15" => c15::run(&mut rng, n),
         "C16" => c16::run(&mut rng, n),
